@@ -91,6 +91,30 @@ impl Drop for WH {
     }
 }
 
+impl Clone for Node {
+    /// Used by `Rc::make_mut` only. The clone gets the id the harness reserved for the new
+    /// allocation and clones of all stored handles.
+    fn clone(&self) -> Node {
+        let _u = UserScope::new();
+        let w = world();
+        w.nclones += 1;
+        let id = w.clone_id;
+        let strong: Vec<SH> = self
+            .strong
+            .borrow()
+            .iter()
+            .map(|sh| SH { h: ManuallyDrop::new(lib(|| Rc::clone(&sh.h))), owner: id, target: sh.target })
+            .collect();
+        let weak: Vec<WH> = self
+            .weak
+            .borrow()
+            .iter()
+            .map(|wh| WH { h: ManuallyDrop::new(lib(|| Weak::clone(&wh.h))), owner: id, target: wh.target })
+            .collect();
+        Node { id, canary: MAGIC ^ id as u64, strong: RefCell::new(strong), weak: RefCell::new(weak) }
+    }
+}
+
 struct PanicMarker(#[allow(dead_code)] u32);
 
 impl Drop for Node {
@@ -109,12 +133,19 @@ impl Drop for Node {
         let sc = w.objs[id as usize].script.clone();
         if sc.op == "Panic" {
             w.panics += 1;
+            if std::thread::panicking() && !w.real_abort {
+                // a second panic while unwinding aborts the process: predicted, not performed
+                w.aborted = true;
+                line_simple(w, "abort", "double_panic", id, 0);
+                w.quiet = true;
+                return;
+            }
             std::panic::panic_any(PanicMarker(id));
         }
         if sc.op != "none" && !sc.op.is_empty() {
             let op = Op { op: script_to_op(&sc.op).to_string(), a: sc.x, b: sc.y, d: Script::default() };
             // scripted call from inside the destructor; the owner of stored handles is `id`
-            let op = if sc.op == "UpgradeStored" || sc.op == "CloneStored" {
+            let op = if sc.op == "UpgradeStored" || sc.op == "CloneStored" || sc.op == "DropStored" {
                 Op { a: id, b: sc.x, ..op }
             } else {
                 op
@@ -176,6 +207,10 @@ struct World {
     pads: Vec<Vec<u8>>,
     quiet: bool, // do not record lines (scale mode)
     skipped: u64,
+    raws: Vec<Vec<*const Node>>,
+    detached: Vec<Option<Node>>,
+    nclones: u32,
+    clone_id: u32,
     real_abort: bool, // child mode: really perform calls that abort the process
     aborted: bool,
 }
@@ -287,6 +322,13 @@ fn reset_world(w: &mut World) {
             std::mem::forget(h);
         }
     }
+    for v in std::mem::take(&mut w.detached) {
+        std::mem::forget(v);
+    }
+    w.raws.clear();
+    w.raws.push(Vec::new());
+    w.detached.push(None);
+    w.quiet = false;
     w.objs.clear();
     w.objs.push(ObjInfo::default());
     w.roots.push(Vec::new());
@@ -305,6 +347,7 @@ fn reset_world(w: &mut World) {
 }
 
 fn reset_counters(w: &mut World) {
+    w.nclones = 0;
     w.ntrace = 0;
     w.ntrace1 = 0;
     w.npop = 0;
@@ -466,7 +509,7 @@ fn line_ret(w: &mut World, op: &Op, ret: &str, panicked: bool, seen: &str) {
     let mut s = std::mem::take(&mut w.out);
     let _ = write!(
         s,
-        "{{\"k\":\"ret\",\"op\":\"{}\",\"a\":{},\"b\":{},\"d\":{{\"op\":\"{}\",\"x\":{},\"y\":{}}},\"ret\":\"{}\",\"panic\":{},\"depth\":{},\"cnt\":{{\"ntrace\":{},\"npop\":{},\"nvisit\":{},\"nmember\":{},\"nalloc\":{},\"maxdepth\":{},\"ntrace1\":{},\"nalloc1\":{}}},\"seen\":{},\"obs\":",
+        "{{\"k\":\"ret\",\"op\":\"{}\",\"a\":{},\"b\":{},\"d\":{{\"op\":\"{}\",\"x\":{},\"y\":{}}},\"ret\":\"{}\",\"panic\":{},\"depth\":{},\"cnt\":{{\"ntrace\":{},\"npop\":{},\"nvisit\":{},\"nmember\":{},\"nalloc\":{},\"maxdepth\":{},\"ntrace1\":{},\"nalloc1\":{},\"nclones\":{}}},\"seen\":{},\"obs\":",
         op.op,
         op.a,
         op.b,
@@ -484,6 +527,7 @@ fn line_ret(w: &mut World, op: &Op, ret: &str, panicked: bool, seen: &str) {
         w.maxdropdepth,
         w.ntrace1,
         unsafe { track::ALLOCS_TOP },
+        w.nclones,
         seen
     );
     obs_json(w, &mut s);
@@ -640,6 +684,8 @@ fn exec(w: &mut World, op: &Op, in_dtor_of: Option<&Node>, dry: bool) -> Option<
             });
             w.roots.push(vec![h]);
             w.wroots.push(Vec::new());
+            w.raws.push(Vec::new());
+            w.detached.push(None);
             Some("ok".into())
         }
         "CloneRoot" => {
@@ -647,8 +693,8 @@ fn exec(w: &mut World, op: &Op, in_dtor_of: Option<&Node>, dry: bool) -> Option<
                 return None;
             }
             go!();
-            if would_abort(w, a) {
-                return Some("abort".into());
+            if let Some(r) = clone_guard(w, a) {
+                return Some(r);
             }
             let p = &w.roots[a as usize][0] as *const Rc<Node>;
             let h = lib(|| unsafe { Rc::clone(&*p) });
@@ -656,18 +702,26 @@ fn exec(w: &mut World, op: &Op, in_dtor_of: Option<&Node>, dry: bool) -> Option<
             Some("ok".into())
         }
         "CloneStored" => {
-            if !made(w, a) || !made(w, b) || !intact(w, a) {
+            if !made(w, a) || !made(w, b) {
                 return None;
             }
-            let n = node(w, a);
+            let n: &Node = match in_dtor_of {
+                Some(n) if n.id == a => n,
+                _ => {
+                    if !intact(w, a) {
+                        return None;
+                    }
+                    node(w, a)
+                }
+            };
             let p = {
                 let v = n.strong.borrow();
                 let sh = v.iter().find(|e| e.target == b)?;
                 &*sh.h as *const Rc<Node>
             };
             go!();
-            if would_abort(w, b) {
-                return Some("abort".into());
+            if let Some(r) = clone_guard(w, b) {
+                return Some(r);
             }
             let h = lib(|| unsafe { Rc::clone(&*p) });
             w.roots[b as usize].push(h);
@@ -710,14 +764,23 @@ fn exec(w: &mut World, op: &Op, in_dtor_of: Option<&Node>, dry: bool) -> Option<
             Some("ok".into())
         }
         "DropStored" => {
-            if !made(w, a) || !made(w, b) || !intact(w, a) {
+            if !made(w, a) || !made(w, b) {
                 return None;
             }
-            if !node(w, a).strong.borrow().iter().any(|e| e.target == b) {
+            let n: &Node = match in_dtor_of {
+                Some(n) if n.id == a => n,
+                _ => {
+                    if !intact(w, a) {
+                        return None;
+                    }
+                    node(w, a)
+                }
+            };
+            if !n.strong.borrow().iter().any(|e| e.target == b) {
                 return None;
             }
             go!();
-            let sh = take_s(node(w, a), b)?;
+            let sh = take_s(n, b)?;
             let h = sh.into_rc();
             lib(|| drop(h));
             Some("unit".into())
@@ -871,6 +934,145 @@ fn exec(w: &mut World, op: &Op, in_dtor_of: Option<&Node>, dry: bool) -> Option<
             w.wroots[b as usize].push(wh.into_weak());
             Some("ok".into())
         }
+        "TryUnwrap" => {
+            if !made(w, a) || w.roots[a as usize].is_empty() || !intact(w, a) {
+                return None;
+            }
+            go!();
+            let h = w.roots[a as usize].pop()?;
+            match lib(|| Rc::try_unwrap(h)) {
+                Ok(n) => {
+                    w.objs[a as usize].gone = true;
+                    w.detached[a as usize] = Some(n);
+                    Some("ok".into())
+                }
+                Err(h) => {
+                    w.roots[a as usize].push(h);
+                    Some("err".into())
+                }
+            }
+        }
+        "GetMut" => {
+            if !made(w, a) || w.roots[a as usize].is_empty() || !intact(w, a) {
+                return None;
+            }
+            go!();
+            let p = w.roots[a as usize].last_mut()? as *mut Rc<Node>;
+            let r = lib(|| unsafe { Rc::get_mut(&mut *p).is_some() });
+            Some(if r { "some" } else { "none" }.into())
+        }
+        "MakeMut" => {
+            if !made(w, a) || w.roots[a as usize].is_empty() || !intact(w, a) {
+                return None;
+            }
+            let (sc, wc) = {
+                let h = w.roots[a as usize].last()?;
+                (lib(|| Rc::strong_count(h)), lib(|| Rc::weak_count(h)))
+            };
+            let newid = w.objs.len() as u32;
+            let branch = if sc != 1 { "cloned" } else if wc != 0 { "moved" } else { "unique" };
+            // the call line must carry the id of the allocation make_mut will create
+            if dry {
+                return Some(if branch == "unique" { "0".into() } else { newid.to_string() });
+            }
+            if branch == "cloned" {
+                // cloning the value clones every stored strong handle: predicted abort
+                let n = node(w, a);
+                let dead: Vec<u32> = n.strong.borrow().iter().map(|e| e.target).collect();
+                if dead.iter().any(|t| would_abort(w, *t)) {
+                    return Some("abort".into());
+                }
+            }
+            w.clone_id = newid;
+            pad_layout(w);
+            let mut h = w.roots[a as usize].pop()?;
+            lib(|| {
+                Rc::make_mut(&mut h);
+            });
+            if branch == "unique" {
+                w.roots[a as usize].push(h);
+                return Some("unique".into());
+            }
+            let addr = verif::rcbox_addr(&h);
+            unsafe {
+                if let Some(sl) = track::slot_of(addr) {
+                    sl.kind = 1;
+                    sl.id = newid;
+                }
+            }
+            let vptr = Rc::as_ptr(&h) as usize;
+            if branch == "moved" {
+                // the same value now lives in the new allocation: rename it
+                let n = unsafe { &mut *(vptr as *mut Node) };
+                n.id = newid;
+                n.canary = MAGIC ^ newid as u64;
+                for sh in n.strong.borrow_mut().iter_mut() {
+                    sh.owner = newid;
+                }
+                for wh in n.weak.borrow_mut().iter_mut() {
+                    wh.owner = newid;
+                }
+                w.objs[a as usize].gone = true;
+            }
+            let script = w.objs[a as usize].script.clone();
+            w.objs.push(ObjInfo { made: true, addr, vptr, vinit: true, linit: true, gone: false, nd: 0, script });
+            w.roots.push(vec![h]);
+            w.wroots.push(Vec::new());
+            w.raws.push(Vec::new());
+            w.detached.push(None);
+            Some(branch.into())
+        }
+        "IntoRaw" => {
+            if !made(w, a) || w.roots[a as usize].is_empty() {
+                return None;
+            }
+            go!();
+            let h = w.roots[a as usize].pop()?;
+            let p = lib(|| Rc::into_raw(h));
+            w.raws[a as usize].push(p);
+            Some("ok".into())
+        }
+        "FromRaw" => {
+            if !made(w, a) || w.raws[a as usize].is_empty() {
+                return None;
+            }
+            go!();
+            let p = w.raws[a as usize].pop()?;
+            let h = lib(|| unsafe { Rc::from_raw(p) });
+            w.roots[a as usize].push(h);
+            Some("ok".into())
+        }
+        "IncStrong" => {
+            if !made(w, a) || w.raws[a as usize].is_empty() {
+                return None;
+            }
+            go!();
+            if let Some(r) = clone_guard(w, a) {
+                return Some(r);
+            }
+            let p = *w.raws[a as usize].last()?;
+            lib(|| unsafe { Rc::increment_strong_count(p) });
+            w.raws[a as usize].push(p);
+            Some("ok".into())
+        }
+        "DecStrong" => {
+            if !made(w, a) || w.raws[a as usize].is_empty() {
+                return None;
+            }
+            go!();
+            let p = w.raws[a as usize].pop()?;
+            lib(|| unsafe { Rc::decrement_strong_count(p) });
+            Some("unit".into())
+        }
+        "DropDetached" => {
+            if !made(w, a) || w.detached[a as usize].is_none() {
+                return None;
+            }
+            go!();
+            let n = w.detached[a as usize].take()?;
+            drop(n);
+            Some("unit".into())
+        }
         _ => None,
     }
 }
@@ -885,6 +1087,20 @@ fn would_abort(w: &World, o: u32) -> bool {
     let addr = w.objs[o as usize].addr;
     let st = unsafe { (addr as *const usize).read_volatile() };
     st == 0 || st == usize::MAX
+}
+
+/// Pre-flight of a call that increments a strong count: on a released allocation the library
+/// would read freed memory (recorded as the illegal access it is, not performed); on a dead
+/// object it would abort the process (predicted, see `would_abort`).
+fn clone_guard(w: &mut World, o: u32) -> Option<String> {
+    if is_freed(w.objs[o as usize].addr) {
+        push_ub(w, "uaf", o);
+        return Some("uaf".into());
+    }
+    if would_abort(w, o) {
+        return Some("abort".into());
+    }
+    None
 }
 
 fn adopt_call(adopt: bool, p1: *const Rc<Node>, p2: *const Rc<Node>) {
@@ -906,10 +1122,16 @@ fn adopt_call(adopt: bool, p1: *const Rc<Node>, p2: *const Rc<Node>) {
 
 fn top_call(w: &mut World, op: &Op) {
     reset_counters(w);
-    if exec(w, op, None, true).is_none() {
+    let pre = exec(w, op, None, true);
+    if pre.is_none() {
         w.skipped += 1;
         return; // not enabled in this world: nothing is called, nothing is logged
     }
+    let mut opx = op.clone();
+    if op.op == "MakeMut" {
+        opx.b = pre.as_deref().unwrap_or("0").parse().unwrap_or(0);
+    }
+    let op = &opx;
     line_call(w, op);
     let r = catch_unwind(AssertUnwindSafe(|| exec(world(), op, None, false)));
     let w = world();
@@ -953,6 +1175,11 @@ fn nested_call(w: &mut World, op: &Op, me: Option<&Node>) {
     let ret = exec(w, op, me, false).unwrap_or_else(|| "disabled".to_string());
     let w = world();
     line_ret(w, op, &ret, false, "[]");
+    if ret == "abort" {
+        // the process would be dead now: nothing after this point is recorded
+        w.aborted = true;
+        w.quiet = true;
+    }
     w.depth -= 1;
 }
 
@@ -1053,7 +1280,10 @@ fn drive_script(rng: &mut SmallRng, len: usize, nobj: u32, profile: &str, script
         track::TRACK = true;
     }
     let strict = profile != "stale";
-    let weak = profile != "core";
+    let weak = profile != "core" && profile != "stale";
+    let consume = profile == "consume";
+    let mut scripted = 0u32;
+    let cons: &[&str] = &["TryUnwrap", "GetMut", "MakeMut", "MakeMut", "IntoRaw", "FromRaw", "IncStrong", "DecStrong", "DropDetached", "TryUnwrap"];
     let mut done: Vec<Op> = Vec::new();
     let build: &[&str] = &["New", "New", "CloneRoot", "CloneRoot", "AdoptStore", "AdoptStore", "AdoptStore", "Store", "CloneStored", "Adopt", "AdoptSame"];
     let mix: &[&str] = &["CloneRoot", "CloneStored", "DropRoot", "DropRoot", "Store", "Take", "DropStored", "Adopt", "Unadopt", "AdoptSame",
@@ -1070,14 +1300,18 @@ fn drive_script(rng: &mut SmallRng, len: usize, nobj: u32, profile: &str, script
         let pool: &[&str] = match phase {
             0 => build,
             1 => {
-                if weak && rng.gen_range(0..3) == 0 {
+                if consume && rng.gen_range(0..3) == 0 {
+                    cons
+                } else if weak && rng.gen_range(0..3) == 0 {
                     wk
                 } else {
                     mix
                 }
             }
             _ => {
-                if rng.gen_range(0..4) == 0 {
+                if consume && rng.gen_range(0..4) == 0 {
+                    cons
+                } else if rng.gen_range(0..4) == 0 {
                     mix
                 } else {
                     tear
@@ -1093,10 +1327,31 @@ fn drive_script(rng: &mut SmallRng, len: usize, nobj: u32, profile: &str, script
         }
         let a = if n == 0 { 0 } else { rng.gen_range(1..=n) };
         let b = if n == 0 { 0 } else { rng.gen_range(1..=n) };
+        let mut d = Script { op: "none".into(), x: 0, y: 0 };
+        if name == "New" && scripted < 2 && rng.gen_range(0..2) == 0 {
+            // destructor script from the profile's menu; targets may be objects created later
+            let menu: &[&str] = match profile {
+                "dtor10" => &["CloneRoot", "DropRoot", "Downgrade", "WeakDrop", "UpgradeWeak", "UpgradeStored", "Adopt", "Unadopt"],
+                "dtor16" => &["CloneStored", "DropStored"],
+                "dtor05" => &["UpgradeWeak", "UpgradeStored"],
+                "panic" => &["Panic"],
+                _ => &[],
+            };
+            if !menu.is_empty() && (profile != "panic" || scripted == 0) {
+                let m = menu[rng.gen_range(0..menu.len())];
+                let (x, y) = if m == "Panic" { (0, 0) } else { (rng.gen_range(1..=nobj), if m == "Adopt" || m == "Unadopt" { rng.gen_range(1..=nobj) } else { 0 }) };
+                d = Script { op: m.into(), x, y };
+                scripted += 1;
+            }
+        }
         let op = Op { op: name.to_string(), a: if name == "New" { n + 1 } else { a }, b: match name {
-            "New" | "CloneRoot" | "DropRoot" | "AdoptSame" | "UnadoptSame" | "Downgrade" | "Upgrade" | "WeakClone" | "WeakDrop" => 0,
+            "New" | "CloneRoot" | "DropRoot" | "AdoptSame" | "UnadoptSame" | "Downgrade" | "Upgrade" | "WeakClone" | "WeakDrop"
+            | "TryUnwrap" | "GetMut" | "MakeMut" | "IntoRaw" | "FromRaw" | "IncStrong" | "DecStrong" | "DropDetached" => 0,
             _ => b,
-        }, d: Script { op: "none".into(), x: 0, y: 0 } };
+        }, d };
+        if name == "MakeMut" && n >= nobj {
+            continue; // no identity left for the allocation make_mut may create
+        }
         if strict && n > 0 {
             // respect the contract of adopt_unchecked: never more records than stored handles
             let ok = match name {
